@@ -52,6 +52,23 @@ CLAIMS = {
    note=NOTE_COMMON + "NOT decided (stated): the decoupling rate (v/M)^2 of the genuine BSM terms (an asymptotic statement outside contracts); the chain model -> y_f^h = m_f/v at cos(beta-alpha)=0 "
         "uses C09's getter contracts; ring normalisation (sympy) is in the trusted base for the two rational-function identities.",
    technique="relational lemmas: symbolic execution of extracted kernels + z3 NRA / ring normalisation (sympy)", design='5 C10'),
+ 'C13': dict(
+   text="Contracts on the SLHA reader: every process_*_tuple(object, key, value) has exactly the documented effect (README tables: the documented member gets the documented function of "
+        "value, every other member unchanged; nothing changes for undocumented keys, swept over -2..59 and the PDG codes); convert_to<T>(token) returns only if the WHOLE token was "
+        "converted and in range, else EReadError (std::sto* by their documented prefix-parsing contract); read_bool/read_integer accept exactly 0/1 resp. the integers in [min,max]; "
+        "read_block(name,.,scale) reads EVERY block of that name in file order whose Q matches the scale (later assignments override, split entries are all taken, other scales and names "
+        "ignored); read_scale never reads a field the header line does not have; is_at_scale = (scale~0 or |scale-Q|<0.01).  Two obligations failed on the pinned tree with replayed "
+        "counterexamples (tokens with trailing characters; out-of-range float->int conversion) and were repaired by fix: commits.",
+   note=NOTE_COMMON + "SLHAea (tokenizer, comments, whitespace, block-name case folding, ordered containers) enters by an assumed contract: layout independence below the (block,key)->value level is "
+        "SLHAea's and is not claimed; block layouts are explored as representative structures with symbolic values, not for all files.",
+   technique="effect contracts by symbolic execution of extracted readers + z3; library containers by assumed (Python-modelled) contracts; exception-effect inference", design='5 C13'),
+ 'C14': dict(
+   text="The contract-decidable part of C14: every float->int conversion executed by the readers is defined (in range) for ALL doubles; option readers accept exactly their documented values; "
+        "block readers never index a line beyond its fields and write matrices/vectors in bounds only; numeric token conversion throws only EReadError; no exception class raised inside "
+        "main()'s try block escapes its handlers; every failure exit emits a diagnostic.  The read_integer conversion obligation failed on the pinned tree (UBSan-confirmed) and was fixed.",
+   note=NOTE_COMMON + "NOT decided and not claimed: termination within bounded time, leaks, uninitialised memory, behaviour of the SLHAea tokenizer and iostreams on arbitrary bytes, signals -- "
+        "they need execution, which is outside this technique family.",
+   technique="side obligations of symbolic execution (conversion/index ranges) + exception-effect inference on main", design='5 C14'),
  'C15': dict(
    text="Contracts on the reporting code: calculate_amu/calculate_uncertainty dispatch on loop order and resummation (enumerated exhaustively); every total equals the sum "
         "of its parts (MSSM 1L, 2L, leading-log sums, THDM 2L, bosonic and fermionic kernels); in both detailed writers (std::cout as an output-effect trace, on the normal "
